@@ -309,35 +309,49 @@ def with_do(lines, do, extra=""):
     return ['{"do":"%s",%s%s' % (do, extra, l[1:]) for l in lines]
 
 
-def drive(scenarios, wd, name="obs", watchdog=20):
+def drive_groups(scenarios, watchdog=20):
     """Feeds scenario lines to `vdrive run`, restarting it after an abort (stack overflow, panic in
     an extern "C" entry, SIGSEGV) or a hang; those are recorded as events, never as tool errors.
-    Returns the list of observation lines, one per scenario."""
-    obs = []
+    Returns one list of observation lines per scenario (the driver ends each scenario's output
+    with a "#" line)."""
+    groups = []
     i = 0
     restarts = 0
     while i < len(scenarios):
         chunk = scenarios[i:]
-        p = subprocess.run([VDRIVE, "run", str(watchdog)], input="\n".join(chunk) + "\n",
+        p = subprocess.run([VDRIVE, "run", str(watchdog), str(i)], input="\n".join(chunk) + "\n",
                            stdout=subprocess.PIPE, stderr=subprocess.PIPE, text=True)
-        lines = [l for l in p.stdout.splitlines() if l]
-        hang = bool(lines) and lines[-1].startswith('{"k":"hang"')
-        if hang:
-            lines = lines[:-1]
-        obs.extend(lines)
-        i += len(lines)
-        if p.returncode == 0 and len(lines) == len(chunk):
+        cur = []
+        done = []
+        hang = False
+        for l in p.stdout.splitlines():
+            if l == "#":
+                done.append(cur)
+                cur = []
+            elif l.startswith('{"k":"hang"'):
+                hang = True
+            elif l:
+                cur.append(l)
+        groups.extend(done)
+        i += len(done)
+        if p.returncode == 0 and len(done) == len(chunk):
             break
         if i >= len(scenarios):
             break
-        # scenario i killed the driver
-        culprit = scenarios[i]
+        # scenario i killed the driver: keep what it printed and record how it ended
         kind = "hang" if hang else "abort"
-        obs.append(json.dumps({"k": kind, "rc": p.returncode, "scenario": json.loads(culprit)}, separators=(",", ":")))
+        groups.append(cur + [json.dumps({"k": kind, "rc": p.returncode, "scenario": json.loads(scenarios[i])}, separators=(",", ":"))])
         i += 1
         restarts += 1
         if restarts > 200:
             raise ToolError("driver keeps dying")
+    return groups
+
+
+def drive(scenarios, wd, name="obs", watchdog=20):
+    """One observation line per scenario (for executors that print exactly one line)."""
+    groups = drive_groups(scenarios, watchdog)
+    obs = [g[-1] for g in groups if g]
     path = os.path.join(wd, name + ".ndjson")
     with open(path, "w") as f:
         for l in obs:
@@ -467,6 +481,10 @@ class Run:
                     print("VIOLATION property=%s replay=%s" % (self.pid, path))
                     log("  %s: %s" % (sig, shorten(what, 300)))
             ev["violation_details"] = first[:50]
+            cnt = {}
+            for sig, what, payload in real:
+                cnt[sig] = cnt.get(sig, 0) + 1
+            ev["violation_signatures"] = dict(sorted(cnt.items(), key=lambda kv: -kv[1])[:200])
         with open(os.path.join(EVID, self.pid + ".json"), "w") as f:
             json.dump(ev, f, indent=1)
         if rc == 0:
